@@ -88,4 +88,9 @@ def validateMint (env : MintEnv) (proposer ts : Nat) (tx : MintTx) : Decision :=
     mint distribution -/
 def record (env : MintEnv) (tx : MintTx) : MintEnv := { env with lastBatch := tx.batch, lastAmount := tx.amount }
 
+/-- `validateMintSnapshot(snap, tx)` as run by the node `self` whose clock shows `clock`, on a
+    snapshot of `snapNode` with timestamp `snapTs` (zero only before the proposer announces it) -/
+def validateMintSnap (self clock : Nat) (env : MintEnv) (snapNode snapTs : Nat) (tx : MintTx) : Decision :=
+  validateMint env snapNode (opTime self clock snapNode snapTs) tx
+
 end Mixin.MintAccept
